@@ -298,6 +298,35 @@ def _has_negative_pow(node):
     return any(_has_negative_pow(node[k]) for k in ("a", "b") if k in node and isinstance(node[k], dict))
 
 
+def _inexact_merge_risk(tree, R):
+    names = set()
+
+    def walk(n):
+        if isinstance(n, dict):
+            for k in ("ua", "ub"):
+                if isinstance(n.get(k), str):
+                    names.add(n[k])
+            for v in n.values():
+                if isinstance(v, (dict, list)):
+                    walk(v)
+        elif isinstance(n, list):
+            for v in n:
+                walk(v)
+
+    walk(tree)
+    dims = [R.resolve(n).dim for n in names]
+    for i in range(len(dims)):
+        for j in range(len(dims)):
+            d1, d2 = dims[i], dims[j]
+            if i != j and d1 and d2 and set(d1) == set(d2):
+                rs = {Fraction(d2[k]) / Fraction(d1[k]) for k in d1}
+                if len(rs) == 1:
+                    r = next(iter(rs))
+                    if r.denominator & (r.denominator - 1):  # not a power of two
+                        return True
+    return False
+
+
 def case_exact(case, col=None, exact=True):
     R = env.R()
     # configurations: auto_reduce_dimensions (results are compared as physical values, so reduced units are fine); Fraction magnitudes in
@@ -308,6 +337,10 @@ def case_exact(case, col=None, exact=True):
     if col is not None and (kw or _MAGTYPE[0] != "float"):
         col.count("config:" + ("autoreduce" if kw else "") + ("+fraction_magnitudes" if _MAGTYPE[0] != "float" else ""))
     tree = case["tree"]
+    if kw and not exact and _inexact_merge_risk(tree, R):
+        # known finding of C15 (reduced-units-inexact-exponent): with float exponents the merge of, say, liter into meter needs the exponent 1/3
+        # and the registry then refuses its own result; the float tier with auto_reduce_dimensions stays on dyadic ratios (counted)
+        raise Skip("autoreduce_inexact_exponent_float")
     if exact and _neg_pow_over_floordiv(tree):
         if col is not None:
             col.excluded += 1
